@@ -91,8 +91,11 @@ def run(rep, tier):
     ct4 = extract.instantiate(open(os.path.join(core.VERIF, "contracts", "C17_l2u.c")).read(), rep)
     rep.assume("unbounded node-value VCs: unsigned->double conversion of the loop counter is value preserving (uninterpreted sq_u2r with ground instances of "
                "non-negativity, zero, monotonicity, successor); goto-instrument --apply-loop-contracts (non-DFCC) is trusted to generate base and step")
-    uq = [l2.Query("nodes_unbounded.%s" % nm, ct4, ["TOK_LINNAME=TOK_" + nm], timeout=120, loop_contracts=2, u2r=True,
+    uq = [l2.Query("nodes_unbounded.%s" % nm, ct4, ["SCALE=0", "TOK_LINNAME=TOK_" + nm], timeout=120, loop_contracts=2, u2r=True,
                    function="SQuIDS::Set_xrange(double,double,string) [node values, every nx]", where="src/SQuIDS.cpp") for nm in ("linear", "Linear", "lin", "Lin")]
+    uq += [l2.Query("nodes_unbounded.%s" % nm, ct4, ["SCALE=1", "TOK_LOGNAME=TOK_" + nm], timeout=120, loop_contracts=2, u2r=True, explog=True,
+                    function="SQuIDS::Set_xrange(double,double,string) [node values, every nx]", where="src/SQuIDS.cpp") for nm in ("log", "Log")]
+    rep.assume("unbounded log-scale node values: libm exp strictly increasing, log strictly increasing on positive reals, exp(log a)=a (ground instances; libm trusted)")
     for q, r in zip(uq, core.pmap(lambda q: l2.run_query(q, bdir, [bdir, os.path.join(core.VERIF, "spec")]), uq)):
         oid = "C17.L2." + q.name
         rep.add(oid, q.function, "L2", (r.backend or "smt") + "+loop-contract", r.status, r.seconds, q.where,
